@@ -197,6 +197,7 @@ func runC09(c *an.Ctx) {
 	ruleQ7(c)
 	ruleQ8Q10(c)
 	ruleTopoIndex(c, "Q11")
+	ruleQ12(c)
 }
 
 func fieldOwner(p *an.Prog, f *types.Var) string {
